@@ -25,7 +25,7 @@ for mode in ["", "rename", "merge", "merge rename", "drop", "drop merge rename"]
                 for n in range(N+1):
                     subterms = tuple(ch.get_terms for ch in r.children)
                     try: got = st(con.get_terms(r.comb_class.get_terms, subterms, n))
-                    except AssertionError: got="assert"
+                    except (AssertionError, ZeroDivisionError): got="assert"
                     if type(con) is DisjointUnion:
                         if any(con.fixed_values): continue
                         inp.append(f"union|N={n}|P={','.join(r.comb_class.extra_parameters)}|"+"|".join(child(ch,e,[n]) for ch,e in zip(r.children, con.extra_parameters)))
@@ -34,6 +34,10 @@ for mode in ["", "rename", "merge", "merge rename", "drop", "drop merge rename"]
                     elif type(con) is Complement and hasattr(r,"original_rule") and not name.endswith("equiv"):
                         o=r.original_rule
                         inp.append(f"complement|N={n}|IDX={con.idx}|P={','.join(o.comb_class.extra_parameters)}|PT={st(o.comb_class.get_terms(n))}|"+"|".join(child(ch,e,[n]) for ch,e in zip(o.children, con.extra_parameters)))
+                    elif type(con) is Quotient and hasattr(r,"original_rule") and not name.endswith("equiv"):
+                        o=r.original_rule
+                        sh=sum(ch.minimum_size_of_object() for ch in o.children)
+                        inp.append(f"quotient|N={n}|IDX={con.idx}|P={','.join(o.comb_class.extra_parameters)}|PT="+"+".join(f"{m}@{st(o.comb_class.get_terms(m))}" for m in range(n+sh+1))+"|"+"|".join(child(ch,e,range(n+sh+1)) for ch,e in zip(o.children, con.extra_parameters)))
                     else: continue
                     exp.append(got)
 open("/tmp/leanproto/t_in.txt","w").write("\n".join(inp)+"\n"); open("/tmp/leanproto/t_exp.txt","w").write("\n".join(exp)+"\n")
